@@ -59,7 +59,7 @@ Theorem C04_sequence_example :
   let vars := [("n", (true, 1))] in
   let ops := [mkCall "delay" [] [("duration", VItem "n" 1 (KInt (-1))); ("channel", VStr "ch");
                                  ("at_rest", VBool false)]] in
-  let S := plain_seq "s" (JArr []) (JStr "MockDevice") None vars ["q0"] [("ch", "rydberg_global")] ops
+  let S := plain_seq "s" (JArr []) (JStr "MockDevice") None vars [VStr "q0"] [("ch", "rydberg_global")] ops
                      (Some "ground-rydberg") in
   Forall (rt_call S (vctx vars)) ops
   /\ (match encode_seq S with
